@@ -5,6 +5,7 @@ import (
 	"encoding/json"
 	"fmt"
 	"sort"
+	"strconv"
 	"strings"
 
 	"github.com/orda-io/orda/client/pkg/context"
@@ -136,6 +137,41 @@ func (r *run) storeDigest() string {
 		// timestamps; and the serialized document snapshot, whose node list is written in Go map order
 		return field == "createdAt" || field == "updatedAt" || field == "at" || (coll == schema.CollectionNameSnapshot && field == "snapshot")
 	})
+}
+
+// committedDigest is storeDigest without the operation rows that lie beyond the recorded end of their
+// datatype's log (or belong to no datatype document): what an interrupted commit left behind. Such
+// rows are not part of any log; the next push-pull of the datatype - also one that ends up refused -
+// removes them before it does anything else (see DESIGN §10-25).
+func (r *run) committedDigest() string {
+	dts, _ := r.readStore()
+	var sb strings.Builder
+	inOps := false
+	for _, ln := range strings.Split(r.storeDigest(), "\n") {
+		if strings.HasPrefix(ln, "== ") {
+			inOps = strings.HasPrefix(ln, "== "+schema.CollectionNameOperations+" ")
+			if inOps {
+				ln = "== " + schema.CollectionNameOperations
+			}
+		} else if inOps && ln != "" {
+			var od struct {
+				DUID string `json:"duid"`
+				Sseq struct {
+					N string `json:"$numberLong"`
+				} `json:"sseq"`
+			}
+			if json.Unmarshal([]byte(ln), &od) == nil {
+				n, _ := strconv.ParseUint(od.Sseq.N, 10, 64)
+				di := dts[od.DUID]
+				if di == nil || di.doc.Key == "?orphan" || n > di.doc.Sseq.End {
+					continue
+				}
+			}
+		}
+		sb.WriteString(ln)
+		sb.WriteByte('\n')
+	}
+	return sb.String()
 }
 
 // ---------------------------------------------------------------- seam monitors
